@@ -540,8 +540,15 @@ def evaluate(cases):
         if text is None:
             stats["rejected"] += 1
             if not same:
-                findings.append(dict(kind="violation-corr", what="%s: the implementation answers %s, the model %s" %
-                                     (lang, str(ra)[:200], str(ma)[:200]), case=c, impl=ra, model=ma))
+                if isinstance(ma.get("ok"), dict) and ("errors" in ra or "err" in ra):
+                    # the implementation refuses to generate in-scope enums that the model generates: no variant of them
+                    # has a case on the foreign side
+                    findings.append(dict(kind="violation-input", what="%s: the implementation rejects a program of in-scope enums (%s); "
+                                         "none of their variants gets a case on the foreign side" % (lang, str(ra)[:200]),
+                                         case=c, impl=ra, model=ma))
+                else:
+                    findings.append(dict(kind="violation-corr", what="%s: the implementation answers %s, the model %s" %
+                                         (lang, str(ra)[:200], str(ma)[:200]), case=c, impl=ra, model=ma))
             continue
         bad = oracle(lang, c["cfg"], text, c["exps"])
         new = {}
@@ -587,7 +594,7 @@ def report(check, stats, findings):
         elif f["kind"] == "violation-input":
             c = f["case"]
             check.violation(f["what"], case={"lang": c["lang"], "config": c["cfg"], "source": c["src"], "request": c["r"],
-                                             "expected": [e for e in c["exps"] if e["name"] == f["enum"]]},
+                                             "expected": [e for e in c["exps"] if e["name"] == f.get("enum", e["name"])]},
                             impl=f["impl"], model=f["model"], failing_input=True)
         else:
             c = f["case"]
